@@ -155,7 +155,7 @@ def generate():
     data = {"consts": dict(rc, **gc)}
     for ver, tab in (("10", t10), ("11", t11)):
         for cls, mask in (("name", "gNameCharMask"), ("firstname", "gFirstNameCharMask"), ("ws", "gWhitespaceCharMask"),
-                          ("ncname", "gNCNameCharMask")):
+                          ("ncname", "gNCNameCharMask"), ("plain", "gPlainContentCharMask")):
             rs = ranges(tab, mk[mask])
             data["%s_%s" % (cls, ver)] = rs
             out += "Definition %s_ranges_%s : list (N * N) :=\n  %s.\n\n" % (cls, ver, coq_pairs(rs))
